@@ -261,3 +261,39 @@ ENTRIES += [
     V("C13-v-timelimit-or-order", "C13", (WM, "return env_truncate | (state.step_count >= self.max_episode_steps)", "return (self.max_episode_steps <= state.step_count) | env_truncate")),
     V("C13-v-forward-commute", "C13", (WU, "return gradient * sample + intercept", "return intercept + sample * gradient")),
 ]
+
+SB = "lerax/space/box.py"
+SD = "lerax/space/discrete.py"
+SMB = "lerax/space/multi_binary.py"
+SMD = "lerax/space/multi_discrete.py"
+SDI = "lerax/space/dict.py"
+STU = "lerax/space/tuple.py"
+
+ENTRIES += [
+    # ---------------------------------------------------------------- C14
+    M("C14-md-no-lower", "C14", "C14.2", (SMD, "return jnp.all((x >= 0) & (x < jnp.asarray(self.nvec)))", "return jnp.all(x < jnp.asarray(self.nvec))")),
+    M("C14-mb-axis0", "C14", "C14.1", (SMB, "return jnp.all((x == 0) | (x == 1))", "return jnp.all((x == 0) | (x == 1), axis=0)")),
+    M("C14-tuple-prefix", "C14", "C14.4", (STU, "return len(self.spaces) == len(other.spaces) and all(", "return all(")),
+    M("C14-dict-ordereddict", "C14", "C14.4", (SDI, "        if not isinstance(other, Dict):\n            return False", "        if not isinstance(other, OrderedDict):\n            return False")),
+    M("C14-dict-hash-items", "C14", "C14.5", (SDI, "return hash(frozenset(self.spaces.items()))", "return hash(self.spaces.items())")),
+    M("C14-box-canonical-mid", "C14", "C14.7", (SB, "        return jnp.where(\n            bounded_above & bounded_below,\n            (self.low + self.high) / 2,", "        return (self.low + self.high) / 2 + 0 * jnp.where(\n            bounded_above & bounded_below,\n            (self.low + self.high) / 2,")),
+    M("C14-box-exclusive", "C14", "C14.2", (SB, "return jnp.all(x >= self.low) & jnp.all(x <= self.high)", "return jnp.all(x > self.low) & jnp.all(x <= self.high)")),
+    M("C14-box-noshape", "C14", "C14.3", (SB, "        if x.shape != self.shape:\n            return jnp.array(False)\n\n        return jnp.all(x >= self.low)", "        return jnp.all(x >= self.low)")),
+    M("C14-discrete-nofloor", "C14", "C14.3", (SD, "        if ~jnp.array_equal(x, jnp.floor(x)):\n            return jnp.array(False)\n\n        return 0 <= x < self.n", "        return 0 <= x < self.n")),
+    M("C14-discrete-le-n", "C14", "C14.2", (SD, "return 0 <= x < self.n", "return 0 <= x <= self.n")),
+    M("C14-box-eq-ignores-high", "C14", "C14", (SB, "        return bool(jnp.array_equal(self.low, other.low)) and bool(\n            jnp.array_equal(self.high, other.high)\n        )", "        return bool(jnp.array_equal(self.low, other.low))")),
+    M("C14-box-hash-high-only", "C14", "C14.5", (SB, "return hash((self.low.tobytes(), self.high.tobytes()))", "return hash((self.high.tobytes(),))")),
+    M("C14-box-sample-plus", "C14", "C14.6", (SB, "self.high - jr.exponential(upper_bounded_key, self.shape),", "self.high + jr.exponential(upper_bounded_key, self.shape),")),
+    M("C14-box-sample-masks-swapped", "C14", "C14.6", (SB, "        upper_bounded = ~bounded_below & bounded_above\n        lower_bounded = bounded_below & ~bounded_above", "        lower_bounded = ~bounded_below & bounded_above\n        upper_bounded = bounded_below & ~bounded_above")),
+    M("C14-discrete-sample-nomask", "C14", "C14.6", (SD, "return jr.choice(key, self.n, p=mask / jnp.sum(mask))", "return jr.choice(key, self.n)")),
+    M("C14-dict-flat-sorted", "C14", "C14.8", (SDI, "return sum(space.flat_size for space in self.spaces.values())", "return sum(space.flat_size for space in sorted(self.spaces.values(), key=repr))")),
+    M("C14-dict-contains-nokeys", "C14", "C14.3", (SDI, "        if self.spaces.keys() != x.keys():\n            return jnp.array(False)\n", "")),
+    M("C14-tuple-contains-nolen", "C14", "C14.3", (STU, "        if len(x) != len(self.spaces):\n            return jnp.array(False)\n", "")),
+    M("C14-tuple-contains-any", "C14", "C14.2", (STU, "            [space.contains(x_i) for space, x_i in zip(self.spaces, x)]\n        ).all()", "            [space.contains(x_i) for space, x_i in zip(self.spaces, x)]\n        ).any()")),
+    M("C14-gym-box-swapped", "C14", "C14.9", (CG, "return Box(low=space.low, high=space.high, shape=space.shape)", "return Box(low=space.low, high=space.low, shape=space.shape)")),
+    M("C14-gym-multibinary-missing", "C14", "C14.9", (CG, "    elif isinstance(space, gym.spaces.MultiBinary):\n        return MultiBinary(n=space.n)\n", "")),
+    M("C14-gym-kind-confusion", "C14", "C14.9", (CG, "    elif isinstance(space, MultiBinary):\n        return gym.spaces.MultiBinary(", "    elif isinstance(space, MultiBinary):\n        return gym.spaces.MultiDiscrete(")),
+    M("C14-tuple-sample-samekey", "C14", "C14.6", (STU, "            space.sample(key=key)\n            for space, key in zip(self.spaces, jr.split(key, len(self.spaces)))", "            space.sample(key=key)\n            for space, _k in zip(self.spaces, jr.split(key, len(self.spaces)))")),
+    V("C14-v-box-single-all", "C14", (SB, "return jnp.all(x >= self.low) & jnp.all(x <= self.high)", "return jnp.all((self.low <= x) & (x <= self.high))")),
+    V("C14-v-md-two-alls", "C14", (SMD, "return jnp.all((x >= 0) & (x < jnp.asarray(self.nvec)))", "return jnp.all(x < jnp.asarray(self.nvec)) & jnp.all(0 <= x)")),
+]
